@@ -146,3 +146,14 @@ prop("C02", "exploration", (300, 5000),
           "through cooperative fault points, the real prover runs the protocol anyway and the real verifier must reject whenever an independent statement checker finds the assignment "
           "violating (or the strategy breaks a check); accepted proofs must carry reference-correct outputs.",
      note="SAT trusts the gates' eval_filtered (Oracle B covers constraints dropped consistently from all evaluators for public-deterministic programs). Multiplicity cells cannot be pre-set through the API (set_lookup_wires overwrites them); acceptance probability of a false statement is bounded by 2^-60 per case by the R2/R3 floors.")
+
+prop("C08", "exploration", (120, 4000),
+     rule="one run = one lookup-heavy scenario: 1-4 tables (sizes 1, 2, slots-1, slots, slots+1, 2*slots, several rows' worth; arbitrary 16-bit pairs, duplicate outputs, inputs shared between tables), "
+          "per table 1 .. 3 rows' worth of lookups with heavy repetition, exact multiples of the slot count and partially filled last rows, unused entries; all configurations. "
+          "Fault-free case: proves, verifies, every lookup output equals the table's value (reference evaluator), the statement checker is satisfied. Fault cases (Byzantine prover of C02): "
+          "looked-up output +1 / random, looked-up input +1, the output another table holds for the same input, table-row input/output cells, H1 (all-zero accumulator) and H2 (quotient altered per challenge): "
+          "no accepted proof. distinct = (scenario, fault); non-trivial = the statement checker finds the pair outside its table (or the strategy must be rejected)",
+     technique="deterministic simulation: lookup workloads through the honest pipeline and a Byzantine prover with lookup-pair / table-cell faults; table-data statement checker as oracle",
+     text="Seeded exploration of lookup arguments in both directions: completeness with reference-checked outputs on boundary table/lookup sizes, and rejection of every single-pair, "
+          "other-table and table-cell fault injected into the real prover's witness.",
+     note="Multiplicity cells are overwritten by the library inside prove (set_lookup_wires) and cannot be corrupted through the proving API; padding slots conflict with pre-set values and yield a prover error.")
